@@ -134,6 +134,14 @@ type Token string
 
 const defaultToken Token = "x" // gomacro:no-enum
 
+// an embedded pointer is a field of its own (its promoted fields are not assignable before it is set)
+type Meta struct{ Author string }
+
+type Document struct {
+	*Meta
+	Title string
+}
+
 // fields marked to be skipped for data generation
 type Account struct {
 	Name   string
@@ -149,6 +157,7 @@ type Row struct {
 	Sq     Square
 	Tk     Token
 	Acc    Account
+	Doc    Document
 }
 `
 
@@ -198,6 +207,11 @@ func TestGovcHarness_RandPackages(t *testing.T) {
 	// 3. only the types that implement the interface are drawn for a union
 	expect("the union Shape is drawn among its 3 members (Circle, Ring by embedding, shapeTag; not *Square)", strings.Contains(code, "rand.Intn(3)") && !strings.Contains(code, "rand.Intn(2)") && !strings.Contains(code, "rand.Intn(4)") && strings.Contains(code, "randRing(),"))
 	// a named string whose only constant is opted out is not an enum: no empty choice list
+	docBody := ""
+	if m := regexp.MustCompile(`(?s)func randDocument\(\) Document \{(.*?)return s`).FindStringSubmatch(code); m != nil {
+		docBody = m[1]
+	}
+	expect("an embedded pointer is assigned as a whole, its promoted fields are not assigned through a nil pointer", strings.Contains(docBody, "s.Meta = ") && !strings.Contains(docBody, "s.Author = "))
 	expect("Token is generated as a plain string, not as an enum", !strings.Contains(code, "[...]Token{"))
 	// fields tagged gomacro-data:\"ignore\" keep their zero value
 	expect("ignored data fields are not assigned", strings.Contains(code, "s.Name = ") && !strings.Contains(code, "s.Secret = ") && !strings.Contains(code, "s.Count = "))
